@@ -31,9 +31,9 @@ package upstream
 //@   ensures [absent] !us.m.dom[box(name)] ==> u == nil
 
 //@ func (us *upstreamServers) Reset$1(key string) (del bool)
-//@   requires [opts] opts != nil
+//@   requires [opts] len(opts) >= 0
 //@   effectfree
-//@   ensures [def] del <==> !configuredUpstream(deref(opts), key)
+//@   ensures [def] del <==> !configuredUpstream(opts, key)
 //@   loop 0: invariant [idx]  -1 <= $idx && $idx < len(opts)
 //@   loop 0: invariant [none] forall k int :: 0 <= k && k <= $idx ==> opts[k].Name != key
 
@@ -50,3 +50,20 @@ package upstream
 //@   loop 1: invariant [keep]  forall k any :: typeis(k, "string") && !configuredUpstream(opts, unbox(k, "string")) ==> !us.m.dom[k]
 //@   loop 1: invariant [added] forall j int :: 0 <= j && j <= $idx ==> us.m.dom[box(opts[j].Name)] && fresh(unbox(us.m.vals[box(opts[j].Name)], "*upstreamServer")) && unbox(us.m.vals[box(opts[j].Name)], "*upstreamServer") != nil
 //@   loop 1: invariant [others] forall k any :: !typeis(k, "string") ==> us.m.dom[k] == old(us.m.dom[k])
+
+// ---- the proxied call (elton middleware.NewProxy + httputil.ReverseProxy), assumed -----------
+// It contacts one upstream server chosen by the target picker, writes status, header and body
+// of the answer into the context, calls c.Next (which pike's proxy middleware has replaced by a
+// no-op) and leaves the client's request object, its header map and every context key except
+// "proxyTarget" as they were. $proxied counts these calls.
+//@ ghost local $proxied int
+//@ functype (u *upstreamServer) Proxy(c *elton.Context) (err error)
+//@   requires [ctx] c != nil && c.Request != nil
+//@   modifies heap, $proxied
+//@   ensures [once]    $proxied == old($proxied) + 1
+//@   ensures [request] c.Request == old(c.Request) && c.Request != nil && c.Request.URL == old(c.Request.URL) && c.Request.URL != nil && c.Request.Header == old(c.Request.Header)
+//@   ensures [reqhdr]  $hdr[c.Request.Header] == old($hdr[c.Request.Header])
+//@   ensures [path]    c.Request.URL.Path == old(c.Request.URL.Path) && c.Request.URL.RawQuery == old(c.Request.URL.RawQuery)
+//@   ensures [keys]    forall k any :: k != box("proxyTarget") ==> c.kv[k] == old(c.kv[k]) && c.has[k] == old(c.has[k])
+//@   ensures [resp]    c.rh == old(c.rh) && c.rh != nil && c.rh != c.Request.Header
+//@   ensures [error]   typeis(err, "*hes.Error") ==> unbox(err, "*hes.Error") != nil
